@@ -269,6 +269,10 @@ func intrinsicTable() map[string]intrinsic {
 			}
 		}
 		app := m.tt.UF(sig, outLen*8, targs...)
+		if m.ufLastNonEmpty == nil {
+			m.ufLastNonEmpty = map[int]bool{}
+		}
+		m.ufLastNonEmpty[app.id] = !strings.HasSuffix(sig, "_0")
 		m.noteUF(name, sig, app)
 		nt := m.tt.BV(uint64(outLen), 64)
 		c := m.mkArrayCell(types.Typ[types.Uint8], nt, m.curSite)
@@ -284,6 +288,10 @@ func intrinsicTable() map[string]intrinsic {
 		fn, gn := m.argStr(a[0]), m.argStr(a[1])
 		m.ufInv[fn] = gn
 		m.ufInv[gn] = fn
+		return done(nil)
+	}
+	T[zz+"UFLeftInverse"] = func(m *Machine, th *Thread, fr *Frame, f FuncV, a []Value) (Value, invStatus) {
+		m.ufInv[m.argStr(a[0])] = m.argStr(a[1])
 		return done(nil)
 	}
 	T[zz+"Ghost"] = func(m *Machine, th *Thread, fr *Frame, f FuncV, a []Value) (Value, invStatus) {
@@ -339,17 +347,26 @@ func (m *Machine) noteUF(name, sig string, app *Term) {
 	if !ok {
 		return
 	}
-	// app = F(k, x) (last argument is the block, earlier ones the key): assert G(k, F(k,x)) = x
-	if len(app.args) == 0 {
+	// app = F(k..., x): the last (non-empty) argument is the data block, the earlier ones the key material.
+	// Instantiate G(k..., F(k..., x)) = x for the inverse G.
+	if len(app.args) == 0 || !m.ufLastNonEmpty[app.id] {
 		return
 	}
 	x := app.args[len(app.args)-1]
-	if x.w != app.w {
-		return
+	// signature of the inverse: same key argument widths, data argument width = width of F's result
+	isig := inv
+	parts := strings.Split(sig[len(name):], "_")
+	// parts[0] == "" ; parts[1:] are byte lengths of all arguments (including empty ones)
+	lastIdx := len(parts) - 1
+	for i := 1; i < len(parts); i++ {
+		if i == lastIdx {
+			isig += fmt.Sprintf("_%d", app.w/8)
+		} else {
+			isig += "_" + parts[i]
+		}
 	}
-	isig := inv + sig[len(name):]
 	gargs := append(append([]*Term{}, app.args[:len(app.args)-1]...), app)
-	back := m.tt.UF(isig, app.w, gargs...)
+	back := m.tt.UF(isig, x.w, gargs...)
 	m.pc = append(m.pc, m.tt.Eq(back, x))
 }
 
